@@ -7,6 +7,7 @@ pub mod exec_range;
 pub mod exec_clone;
 pub mod exec_misc;
 pub mod exec_cap;
+pub mod exec_views;
 pub mod exec_handles;
 pub mod galloc;
 pub mod mcmodel;
@@ -43,7 +44,8 @@ pub fn groups_for(prop: Prop) -> &'static [&'static str] {
         Prop::C11 => &["fixed", "grid"],
         Prop::C19 => &["noalloc"],
         Prop::C12 => &["general", "fixed", "align"],
-        Prop::C10 | Prop::C17 => &["general"],
+        Prop::C10 => &["general"],
+        Prop::C17 => &["general", "empty"],
         Prop::C18 => &["general"],
         _ => &["general", "fixed"],
     }
@@ -53,6 +55,7 @@ fn configs_for(prop: Prop, tier: Tier) -> Vec<Arc<dyn Runner>> {
     let f = ALL.with(|a| a.borrow().expect("main_with not called"));
     f().into_iter().filter(|e| (tier == Tier::Thorough || e.quick) && groups_for(prop).contains(&e.group))
         .filter(|e| prop != Prop::C18 || e.r.backend() == crate::caps::BK::Heap)
+        .filter(|e| prop != Prop::C17 || matches!(e.r.backend(), crate::caps::BK::Heap | crate::caps::BK::Empty))
         .map(|e| Arc::from(e.r)).collect()
 }
 
